@@ -36,11 +36,12 @@ CPLX_OPS = ['mk.cplx\t0\tX\t-\th0 h1 + h0\t(.+)', 'mk.cplx\t0\tX\t-\th0 + h0 h1\
             'mk.cplx\t0\t-\t-\th0 + h0\t(+)', 'mk.cplx\t0\t-\t-\th1\t.', 'drop\th2', 'drop\th3',
             # periodic strand order with a structure that is NOT invariant under the period
             'mk.cplx\t0\tX\t-\th0 h1 + h0 h1\t(.+.)', 'mk.cplx\t0\tX\t-\th0 h1 + h0 h1\t.(+).', 'mk.cplx\t0\tP\t-\th0 h1 + h0 h1\t.(+).']
-MR_PRE = CPLX_PRE + ['mk.cplx\t0\tA\t-\th0\t.', 'mk.cplx\t0\tB\t-\th1\t.', 'mk.cplx\t0\tC\t-\th0 h1\t..']
-MR_OPS = ['mk.macro\t0\t-\th2 h3', 'mk.macro\t0\t-\th3 h2', 'mk.macro\t0\tB\th2 h3', 'mk.macro\t0\tA\th2', 'mk.macro\t0\tA\tNONE',
+MR_PRE = CPLX_PRE + ['mk.cplx\t0\tA\t-\th0\t.', 'mk.cplx\t0\tB\t-\th1\t.', 'mk.cplx\t0\tC\t-\th0 h1\t..', 'mk.cplx\t0\tC2\t-\th0 h1\t()']
+MR_OPS = ['mk.macro\t0\t-\th4 h5', 'mk.macro\t0\t-\th5 h4', 'mk.macro\t0\tC\th5 h4', 'mk.rxn\t0\t-\topen\th2 h2\th4', 'mk.rxn\t0\t-\topen\th2\th4',
+          'mk.rxn\t0\tR\topen\th2\th4', 'mk.macro\t0\t-\th2 h3', 'mk.macro\t0\t-\th3 h2', 'mk.macro\t0\tB\th2 h3', 'mk.macro\t0\tA\th2', 'mk.macro\t0\tA\tNONE',
           'mk.macro\t0\tQ\tNONE', 'mk.macro\t0\tQ\th2 h3',
           'mk.rxn\t0\t-\tbind21\th2 h3\th4', 'mk.rxn\t0\t-\tbind21\th3 h2\th4', 'mk.rxn\t0\t-\topen\th2 h3\th4',
-          'mk.rxn\t0\tR\tbind21\th2 h3\th4', 'mk.rxn\t0\tR\t-\tNONE\tNONE', 'drop\th5', 'drop\th6']
+          'mk.rxn\t0\tR\tbind21\th2 h3\th4', 'mk.rxn\t0\tR\t-\tNONE\tNONE', 'drop\th6', 'drop\th7']
 STRAND_OPS = ['mk.strand\t0\tS\th0 h1', 'mk.strand\t0\t-\th0 h1', 'mk.strand\t0\tS\th1', 'mk.strand\t0\tT\th0 h1', 'mk.strand\t0\tS\tNONE',
               'mk.strand\t0\ts1\th1 h1', 'mk.strand\t0\t-\th0 + h1', 'drop\th2', 'drop\th3']
 
